@@ -32,7 +32,7 @@ PLAN = {
     'C11': {'quick': [('MC_core.tla', 'MC_err.cfg')], 'thorough': [('MC_core.tla', 'MC_err.cfg')]},
     'C13': {'quick': [('MC_hist.tla', 'MC_hist.cfg')], 'thorough': [('MC_hist.tla', 'MC_hist.cfg'), ('MC_hist.tla', 'MC_hist_big.cfg')]},
     'C14': {'quick': [('MC_hist.tla', 'MC_hist.cfg')], 'thorough': [('MC_hist.tla', 'MC_hist.cfg'), ('MC_hist.tla', 'MC_hist_big.cfg')]},
-    'C16': {'quick': [], 'thorough': [('MC_core.tla', 'MC_stop.cfg')]},
+    'C16': {'quick': [('MC_core.tla', 'MC_stop_s.cfg')], 'thorough': [('MC_core.tla', 'MC_stop_s.cfg'), ('MC_core.tla', 'MC_stop.cfg')]},
     'C18': {'quick': [('MC_one.tla', 'MC_expect_s.cfg')], 'thorough': [('MC_one.tla', 'MC_expect.cfg')]},
     'C17': {'quick': [('MC_wal.tla', 'MC_wal.cfg')], 'thorough': [('MC_wal.tla', 'MC_wal.cfg')]},
     'C15': {'quick': [('MC_core.tla', 'MC_idle.cfg')], 'thorough': [('MC_core.tla', 'MC_idle.cfg'), ('MC_core.tla', 'MC_idle_big.cfg')]},
@@ -44,7 +44,8 @@ REQUIRED = {
     'MC_time.cfg': ['TimeoutFire', 'OwnerAbandon', 'HCancelAw', 'HCancelExit'],
     'MC_partime_s.cfg': ['TimeoutFire', 'ParStart', 'PCancelWake', 'XAbandon', 'OwnerAbandon'],
     'MC_late.cfg': ['DRegister'],
-    'MC_stop.cfg': ['DStopGo', 'DStopWaitEnd', 'DCancelRL'],
+    'MC_stop_s.cfg': ['DStopGo', 'DStopWaitEnd', 'DCancelRL', 'HStopBegin', 'HStopWaitEnd'],
+    'MC_stop.cfg': ['DStopGo', 'DStopWaitEnd', 'DCancelRL', 'HStopBegin', 'HStopWaitEnd'],
     'MC_wal.cfg': ['WalWrite', 'WalOpen'],
     'MC_expect_s.cfg': ['DExpectBegin', 'DExpectEnd'],
     'MC_expect.cfg': ['DExpectBegin', 'DExpectEnd'],
